@@ -68,7 +68,9 @@ SameZonePairs == UNION {{[kind |-> "dtpair",
                         : y \in ZoneYears}
 OffsetReadings == {DT(d, t) : d \in {D(2021, 1, 1), D(2020, 12, 31), D(2020, 2, 29), D(2020, 3, 1), D(1, 1, 1), D(0 - 1, 12, 31), D(2300, 6, 1), D(1700, 3, 1)},
                      t \in {Utc(0, 0, 0, 0), Utc(23, 59, 59, 999999999), Off(0, 0, 0, 0, 50400), Off(23, 59, 59, 999999999, 0 - 53999), Off(10, 0, 0, 1, 3600),
-                            Off(9, 0, 0, 0, 0), Off(11, 30, 0, 0, 5400), Off(12, 0, 0, 0, 0 - 1), Loc(10, 0, 0, 0), Zn(10, 0, 0, 0, "Asia/Kolkata"), Zn(10, 0, 0, 0, "Etc/GMT+5")}}
+                            Off(9, 0, 0, 0, 0), Off(11, 30, 0, 0, 5400), Off(12, 0, 0, 0, 0 - 1), Loc(10, 0, 0, 0),
+                            \* readings that differ in the fraction of a second only (one zone), and the same instants read in another zone
+                            Utc(10, 0, 0, 500000000), Utc(10, 0, 0, 700000000), Off(11, 0, 0, 500000000, 3600), Off(11, 0, 0, 700000000, 3600), Zn(10, 0, 0, 0, "Asia/Kolkata"), Zn(10, 0, 0, 0, "Etc/GMT+5")}}
 OffsetPairs == {[kind |-> "dtpair", a |-> a, b |-> b] : a \in OffsetReadings, b \in OffsetReadings}
 FarPairs == {[kind |-> "dtpair", a |-> DT(a, Utc(0, 0, 0, 0)), b |-> DT(b, Off(0, 0, 0, 0, 3600))] : a \in EdgeDates, b \in {D(2021, 1, 1), D(262143, 12, 31), D(0 - 262144, 1, 1), D(999999999, 12, 31)}}
 
